@@ -1,14 +1,17 @@
 #!/bin/bash
 # tools/build_overlay.sh <engine>   engine: pure | conc | conc_race
-# Regenerates the instrumented copy of /repo's current tree (vinstr) and builds the harness with `go build -overlay`.
+# Regenerates the instrumented copy of the gogu tree (vinstr; /repo unless VERIF_REPO says otherwise)
+# and builds the harness with `go build -overlay`.
 cd "$(dirname "$0")/.." || exit 2
 export GOFLAGS=-mod=mod GOPROXY=off GOSUMDB=off GOTOOLCHAIN=local
 eng=$1
-scratch="$(pwd)/.scratch/$eng"
-mkdir -p bin .scratch
-exec 9>".scratch/$eng.lock"
+repo="${VERIF_REPO:-/repo}"
+out="${VERIF_OUT:-$(pwd)}"
+scratch="$out/.scratch/$eng"
+mkdir -p "$out/bin" "$out/.scratch"
+exec 9>"$out/.scratch/$eng.lock"
 flock 9
-go build -o bin/vinstr ./cmd/vinstr || exit 2
+go build -o "$out/bin/vinstr" ./cmd/vinstr || exit 2
 rm -rf "$scratch"
 mode=full
 pkg=./props/conc
@@ -19,5 +22,5 @@ case $eng in
   conc_race) flags="-race" ;;
   *) echo "unknown engine $eng" >&2; exit 2 ;;
 esac
-bin/vinstr -repo /repo -out "$scratch" -verif "$(pwd)" -mode $mode || { echo "vinstr failed" >&2; exit 2; }
-go build $flags -overlay "$scratch/overlay.json" -tags verif -o "bin/$eng" $pkg || exit 2
+"$out/bin/vinstr" -repo "$repo" -out "$scratch" -verif "$(pwd)" -mode $mode || { echo "vinstr failed" >&2; exit 2; }
+go build $flags $VERIF_MODFLAG -overlay "$scratch/overlay.json" -tags verif -o "$out/bin/$eng" $pkg || exit 2
